@@ -42,7 +42,8 @@ ASSUMPTIONS = [
     'atomically; every call is a scheduling point (see the job bounds for the granularity)',
     'model lock with asyncio.Lock semantics for the per-address update locks and the address generator lock; asyncio.gather runs its '
     'coroutines one after the other',
-    'headers stand-in of length 0: no merkle verification is attempted (heights are kept, is_verified stays false)',
+    'headers stand-in: block h holds exactly the h-th transaction (merkle root = its hash, empty branch): every confirmed transaction is '
+    'verified by the real maybe_verify_transaction, mempool transactions are not',
 ]
 OUTSIDE = ['claims signed by channels, channel keys, purchases, claim shapes other than the two fixed histories', 'more than 100 transactions per address', 'several accounts and wallets',
            'the real AIOSQLite executor threads', 'network failures', 'merkle verification']
@@ -129,14 +130,21 @@ class SyncSQLite:
 
 
 class Headers:
+    """The header chain as far as the server has confirmed transactions: block h (1..confirmed) holds exactly transaction h-1, so its
+    merkle root is that transaction's hash and the proof is the empty branch at position 0 - the real maybe_verify_transaction /
+    get_root_of_merkle_tree verify every confirmed transaction (the proof logic itself is C08's subject)."""
     checkpoints = {}
+    server = None
 
     def __len__(self):
-        return 0
+        return self.server.confirmed + 1 if self.server is not None else 0
 
     @property
     def height(self):
-        return -1
+        return len(self) - 1
+
+    async def get(self, height):
+        return {'merkle_root': self.server.world['txids'][height - 1].encode(), 'block_height': height}
 
     def estimated_julian_day(self, height):
         return 0
@@ -190,7 +198,8 @@ class Network:
             k = self.server.world['txids'].index(txid)
             if k >= self.server.n:
                 raise KeyError(txid)
-            out[txid] = (self.server.world['raws'][k], {'block_height': self.server.height(k)})
+            height = self.server.height(k)
+            out[txid] = (self.server.world['raws'][k], {'block_height': height, 'merkle': [], 'pos': 0} if height > 0 else {'block_height': height})
         return out
 
     async def subscribe_address(self, *addresses):
@@ -257,7 +266,7 @@ class StubLedger:
         locals()[_name] = Ledger.__dict__[_name]
     del _name
     for _name in ('hash160_to_address', 'hash160_to_script_address', 'public_key_to_address', 'get_id', 'is_pubkey_address',
-                  'is_script_address'):
+                  'is_script_address', 'get_root_of_merkle_tree'):
         locals()[_name] = Ledger.__dict__[_name]
     del _name
     address_to_hash160 = Ledger.__dict__['address_to_hash160']
@@ -273,6 +282,7 @@ class StubLedger:
         self.db = db
         db.ledger = self
         self.headers = Headers()
+        self.headers.server = getattr(network, 'server', None)
         self.network = network
         self.accounts = []
         self._on_transaction_controller = Events()
@@ -636,11 +646,13 @@ def compare(vm, world, server, addresses, db, account, ledger, results):
             if a in addresses[:known] or a in change[:known_change]:
                 reachable = True
         if reachable:
-            row = db.db.conn.execute('select height from tx where txid=?', (world['txids'][k],)).fetchone()
+            row = db.db.conn.execute('select height, is_verified from tx where txid=?', (world['txids'][k],)).fetchone()
             if row is None:
                 return 'VIOLATION: a transaction of the history is not stored'
             if row['height'] != server.height(k):
                 return 'VIOLATION: a stored transaction does not carry the height the server reports'
+            if bool(row['is_verified']) != (server.height(k) > 0):
+                return 'VIOLATION: a stored transaction is not marked verified exactly when it is confirmed with a valid proof'
     got = vm.await_(account.get_utxos())
     got_map = {}
     for txo in got:
